@@ -1,8 +1,42 @@
-"""impl side of the ASan phase: exact-fit buffers only, result discarded."""
+"""impl side of the ASan phase: kernel calls on exact-fit buffers and index/query workloads; results discarded."""
 from harness.props import kernels as K
 
 
+def _workload(c):
+    import random
+    import numpy as np
+    from searcharray import SearchArray
+    rng = random.Random(c["seed"])
+    if c["w"] == "slop":
+        # long uniformly random documents over few terms: many candidate spans (span table capacity)
+        terms = [f"t{i}" for i in range(c["nterms"])]
+        docs = [" ".join(rng.choice(terms) for _ in range(c["len"])) for _ in range(c["ndocs"])] + ["t0 t1"]
+        arr = SearchArray.index(docs)
+        arr.termfreqs(terms[: c["q"]], slop=c["slop"])
+        arr.score(terms[:2], slop=c["slop"])
+        return 0
+    # index + every query kind + views (stepped / reversed / repeated rows)
+    vocab = [f"w{i}" for i in range(rng.choice([2, 3, 7]))]
+    docs = [" ".join(rng.choice(vocab) for _ in range(rng.choice([0, 1, 17, 18, 19, 40, 200]))) for _ in range(rng.randint(1, 23))]
+    arr = SearchArray.index(docs, batch_size=rng.choice([1, 3, 100000]), workers=rng.choice([1, 2]))
+    views = [arr, arr[::-1], arr[1::2], arr[np.array([0, 0, len(arr) - 1])], arr[::2][::-1], arr.copy()]
+    for v in views:
+        for t in vocab[:2] + ["zzz"]:
+            v.termfreqs(t)
+            v.score(t)
+            v.docfreq(t)
+            if t != "zzz":
+                v.positions(t)
+            v.termfreqs(t, min_posn=18, max_posn=35)
+        v.termfreqs(vocab[:2] if len(vocab) >= 2 else [vocab[0], vocab[0]])
+        v.score([vocab[0], vocab[-1]])
+        v.termfreqs([vocab[0], vocab[-1]], slop=rng.choice([1, 3]))
+    return 0
+
+
 def impl(c):
+    if "w" in c:
+        return _workload(c)
     try:
         K.impl_kernel(c)
     except (ValueError, OverflowError):
